@@ -101,9 +101,11 @@ example : chunkSize 5 2 = 3 ∧ chunkSize 0 2 = 1 ∧ chunkSize 5 16 = 1 ∧ chu
 
 /-- **Load balancing is a partition.**  For every parallelism `p ≥ 1`, every weight arithmetic and every
 weight estimates (numbers, other JSON, missing), `apply_load_balancing_policy` neither fails nor panics, makes
-`p` bins, and the bins joined are a permutation of the queries: every query is in exactly one bin. -/
+`min p n` bins for `n` queries (never more bins than queries, fix: a huge `p` used to be allocated and aborted
+the process), and the bins joined are a permutation of the queries: every query is in exactly one bin. -/
 theorem balance_partition {α : Type} (W : WOps α) (p : Nat) (hp : 1 ≤ p) (qs : List Json) :
-    ∃ bins, balanceO W p qs = .ok (.ok bins) ∧ bins.flatten.Perm qs ∧ (qs ≠ [] → bins.length = p) := by
+    ∃ bins, balanceO W p qs = .ok (.ok bins) ∧ bins.flatten.Perm qs ∧
+      (qs ≠ [] → bins.length = min p qs.length) := by
   obtain ⟨bins, h1, h2, h3, _⟩ := balanceO_spec W p hp qs
   exact ⟨bins, h1, h2, h3⟩
 
